@@ -12,6 +12,7 @@ from engine.check import Check
 from engine.interp import State
 from engine.values import Unsupported
 from .common import *
+from .conv import drop_empty_image_outcomes
 
 BUDGET = Fr(3, 10 ** 6)
 
@@ -20,7 +21,7 @@ def decode_kernel(ctx, T, cfgv):
     st = State()
     yptr, _ = ctx.sym_yuv(it, st, T, cfgv)
     key = ctx.entry('<rgb::Rgb as std::convert::TryFrom<&yuv::Yuv<%s>>>::try_from' % T)
-    outs = it.call_fn(st, key, [yptr])
+    outs = drop_empty_image_outcomes(ctx, it.call_fn(st, key, [yptr]))
     return it, outs
 
 def analyse_component(e, T, bd, full):
